@@ -76,6 +76,15 @@ class Rewriter(ast.NodeTransformer):
                                               args=[node.left, node.right], keywords=[]), node)
         return node
 
+    def visit_Call(self, node):
+        self.generic_visit(node)
+        f = node.func
+        if isinstance(f, ast.Attribute) and f.attr == 'join' and len(node.args) == 1 and not node.keywords:
+            self._note('join', node)
+            return ast.copy_location(ast.Call(func=ast.Name(id='__sym_join', ctx=ast.Load()),
+                                              args=[f.value, node.args[0]], keywords=[]), node)
+        return node
+
     def visit_Compare(self, node):
         self.generic_visit(node)
         if len(node.ops) == 1:
@@ -150,7 +159,13 @@ class Rewriter(ast.NodeTransformer):
             body = ast.If(test=node.test, body=node.body + [post, end], orelse=[])
             out = [pre, hav, body]
         else:
-            raise NotImplementedError('for-loop cut')
+            more = ast.Call(func=ast.Name(id='__loop_more', ctx=ast.Load()), args=[ast.Constant(n)], keywords=[])
+            item = ast.Assign(targets=[node.target],
+                              value=ast.Call(func=ast.Name(id='__loop_item', ctx=ast.Load()), args=[ast.Constant(n), node.iter], keywords=[]))
+            if node.orelse:
+                raise NotImplementedError('for-else cut')
+            body = ast.If(test=more, body=[item] + node.body + [post, end], orelse=[])
+            out = [pre, hav, body]
         return [ast.fix_missing_locations(ast.copy_location(x, node)) for x in out]
 
     def visit_While(self, node):
@@ -171,7 +186,16 @@ class Rewriter(ast.NodeTransformer):
     def visit_For(self, node):
         if self.depth == 1:
             self.loop_no += 1
+            n = self.loop_no
+        else:
+            n = None
         self.generic_visit(node)
+        if n is not None and n in self.loop_cuts:
+            save = self.loop_no
+            self.loop_no = n
+            r = self._cut(node)
+            self.loop_no = save
+            return r
         return node
 
 
